@@ -120,6 +120,28 @@ def alphabet(U):
 READS = list(netmon.MEMOS) + ["links", "per_node"]
 
 
+def group_reads(M, net, rec, U, desc):
+    """Entering / leaving links asked for a GROUP of nodes (tuple, frozenset, list), the same groups after
+    every call - some of the nodes only join the network later."""
+    from vf import extract as X
+
+    G_ = X.raw_graph(net)
+    for grp in ((U.N[0], U.N[2]), (U.N[1], U.N[2]), frozenset((U.N[0], U.N[1])), [U.N[2], U.N[0]]):
+        inside = [n_ for n_ in grp if any(n_ is m_ for m_ in G_._node)]
+        exp_in = sorted(id(d_["link"]) for u_, nb_ in G_._succ.items() for w_, d_ in nb_.items() if any(w_ is n_ for n_ in inside))
+        exp_out = sorted(id(d_["link"]) for u_, nb_ in G_._succ.items() for w_, d_ in nb_.items() if any(u_ is n_ for n_ in inside))
+        for what, view, exp in (("entering", net.in_links, exp_in), ("leaving", net.out_links, exp_out)):
+            rec.count("group_link_reads")
+            try:
+                got = sorted(id(t_[-1]) for t_ in view(grp))
+            except Exception as e:
+                rec.violation(f"{PROP}:links {what} a group of nodes ({type(grp).__name__}) cannot be read ({type(e).__name__})", {"op": desc})
+                continue
+            if got != exp:
+                rec.violation(f"{PROP}:links {what} a group of nodes ({type(grp).__name__}) disagree with the graph after {netmon._opkind(desc)}",
+                              {"op": desc, "returned": len(got), "in_graph": len(exp)})
+
+
 def run_history(M, rec, U, ops, seq, rng, read_all=True):
     net = M.Network()
     if not read_all and rng.random() < 0.4:
@@ -138,6 +160,7 @@ def run_history(M, rec, U, ops, seq, rng, read_all=True):
         rec.count("mutating_calls")
         for m in before:
             rec.seen("memo_x_op", (m, kind.rstrip("!")))
+        group_reads(M, net, rec, U, desc)
         if read_all:
             netmon.check_lookups(M, net, rec, PROP, None, desc)
             netmon.twin_compare(M, net, rec, PROP, desc)
